@@ -196,6 +196,16 @@ def intrinsics():
 
     # ---- iterators
     I["core::iter::traits::collect::IntoIterator::into_iter"] = lambda ip, n, a: to_iter(a[0])
+    DFL = "<%s as core::default::Default>::default"
+    I[DFL % "alloc::collections::btree::map::BTreeMap<K, V>"] = lambda ip, n, a: MapV()
+    I[DFL % "std::collections::hash::map::HashMap<K, V, S>"] = lambda ip, n, a: MapV()
+    I[DFL % "alloc::collections::btree::set::BTreeSet<T>"] = lambda ip, n, a: SetV()
+    I[DFL % "std::collections::hash::set::HashSet<T, S>"] = lambda ip, n, a: SetV()
+    I[DFL % "alloc::vec::Vec<T>"] = lambda ip, n, a: A.VecV([])
+    I[DFL % "alloc::collections::vec_deque::VecDeque<T>"] = lambda ip, n, a: A.VecV([])
+    I[DFL % "alloc::string::String"] = lambda ip, n, a: ""
+    I[DFL % "core::option::Option<T>"] = lambda ip, n, a: none()
+
     def discriminant(ip, n, a):
         """core::intrinsics::discriminant_value, as called by derived PartialEq / PartialOrd / Hash: the variant's ordinal."""
         v = d(a[0])
